@@ -33,7 +33,7 @@ ASSUMPTIONS = [
     "graphs are not mutated while queries are alive; RAND/NOW/UUID/BNODE() are not generated",
     "initBindings are only generated for variables bound by the outermost basic graph pattern and not used in sub-queries (the statement's side condition)",
 ]
-PROBES = ["two-live-iterators-of-one-prepared-query", "iterator-resumed-after-another-evaluation-started", "same-prepared-query-on-two-graphs", "initBindings-evaluation", "reader-cancelled", "nonempty-comparison", "rewrite-permute-bgp", "rewrite-swap-union", "rewrite-swap-join", "rewrite-rename-vars", "rewrite-prefix", "rewrite-values-vs-initbindings", "config-aggregate", "config-simple", "config-auditable", "config-dataset"]
+PROBES = ["two-live-iterators-of-one-prepared-query", "iterator-resumed-after-another-evaluation-started", "same-prepared-query-on-two-graphs", "initBindings-evaluation", "reader-cancelled", "nonempty-comparison", "rewrite-permute-bgp", "rewrite-swap-union", "rewrite-swap-join", "rewrite-rename-vars", "rewrite-prefix", "rewrite-values-vs-initbindings", "prefix-from-initNs", "config-aggregate", "config-simple", "config-auditable", "config-dataset"]
 KNOWN_PREDICATES = {}
 
 P, Q, R_ = EX + "p", EX + "q", EX + "r"
@@ -57,12 +57,17 @@ def warm():
 V = lambda n: ["v", n]  # noqa: E731
 
 
+EX2 = "http://other.example/ns#"
+
+
 def r_term(t, st):
     if t[0] == "v":
         return "?" + st["ren"].get(t[1], t[1])
     if t[0] == "u":
         if st["prefix"] and t[1].startswith(EX):
             return "ex:" + t[1][len(EX) :]
+        if st.get("ns") and t[1].startswith(EX):
+            return "<" + st["ns"] + t[1][len(EX) :] + ">"
         return "<" + t[1] + ">"
     if t[0] == "path":
         return t[1].replace("P", r_term(["u", P], st)).replace("Q", r_term(["u", Q], st))
@@ -120,7 +125,7 @@ def r_elems(elems, st):
 
 
 def r_query(q, st, sub=False):
-    head = "" if sub or not st["prefix"] else f"PREFIX ex: <{EX}>\n"
+    head = "" if sub or not st["prefix"] or st.get("undeclared") else f"PREFIX ex: <{EX}>\n"
     if q.get("agg"):
         sel = " ".join(r_term(V(v), st) for v in q["group"]) + f" (COUNT({r_term(V(q['agg']), st)}) AS {r_term(V('n'), st)})"
     elif q["select"] == "*":
@@ -137,8 +142,8 @@ def r_query(q, st, sub=False):
     return s
 
 
-def text_of(q, prefix=False, ren=None):
-    return r_query(q, {"prefix": prefix, "ren": ren or {}})
+def text_of(q, prefix=False, ren=None, undeclared=False, ns=None):
+    return r_query(q, {"prefix": prefix, "ren": ren or {}, "undeclared": undeclared, "ns": ns})
 
 
 # ----------------------------------------------------------------------------- generation
@@ -174,6 +179,10 @@ def _query(g):
     if any(t[1][0] == "path" for t in where[0]["triples"]):
         outer_bgp_vars = []
     uses_sub = False
+    if g.chance(0.2):
+        # a sub-SELECT that is evaluated before the outer basic graph pattern and projects only ?s
+        where.insert(0, {"t": "subselect", "q": {"select": ["s"], "distinct": g.chance(0.3), "where": [{"t": "bgp", "triples": [[V("s"), g.pick(PREDS), V("k")]]}]}})
+        outer_bgp_vars = [v for v in outer_bgp_vars if v not in ("s", "k")]
     for _ in range(g.randint(0, 3)):
         k = g.choice(["optional", "optional-filter", "union", "minus", "filter", "bind", "values", "subselect", "group", "bgp2"])
         if k == "optional":
@@ -204,9 +213,10 @@ def _query(g):
         q["select"] = g.sample(["s", "o"], g.randint(1, 2))
     elif mode == "agg":
         q["agg"], q["group"] = "o", ["s"]
-    elif mode == "order" and where[0]["triples"] == [[V("s"), V("p"), V("o")]] and len(where) == 1:
+    elif mode == "order" and where[0].get("triples") == [[V("s"), V("p"), V("o")]] and len(where) == 1:
         q["order"], q["limit"] = ["s", "p", "o"], g.randint(1, 6)
-    q["_outer_vars"] = [] if uses_sub else [v for v in outer_bgp_vars if not any(v == e.get("var") for e in where)]
+    # (the statement's side condition: no sub-query reuses the variable; our sub-SELECT only mentions ?o and ?k)
+    q["_outer_vars"] = [v for v in outer_bgp_vars if not any(v == e.get("var") for e in where) and not (uses_sub and v in ("o", "k"))]
     return q
 
 
@@ -280,7 +290,7 @@ def generate(seed, tier):
                 live.remove(r)
             ops.append(op)
             continue
-        kind = g.weighted([("open", 6), ("rewrite", 3), ("config", 2), ("initb", 1)])
+        kind = g.weighted([("open", 6), ("rewrite", 3), ("config", 2), ("initb", 1), ("initns", 1)])
         qi = g.randrange(nq)
         q = queries[qi]
         if kind == "open" and len(live) < 5:
@@ -298,6 +308,8 @@ def generate(seed, tier):
                 ops.append({"uid": uid, "k": "rewrite", "q": qi, "kind": kind_, "q2": q2, "ren": ren, "prefix": pfx})
         elif kind == "config":
             ops.append({"uid": uid, "k": "config", "q": qi, "cfg": g.choice(["simple", "auditable", "aggregate", "dataset"])})
+        elif kind == "initns":
+            ops.append({"uid": uid, "k": "initns", "q": qi, "order": g.choice([[0, 1], [1, 0], [0, 1, 0]])})
         elif kind == "initb" and q["_outer_vars"]:
             v = g.choice(q["_outer_vars"])
             ops.append({"uid": uid, "k": "initb", "q": qi, "var": v, "val": g.pick(SUBS_C) if v != "p" else g.pick(PREDS)})
@@ -474,6 +486,23 @@ def execute(trace, ctx):
                 ctx.probe("nonempty-comparison")
             ctx.check(got == base, "C15.config-" + op["cfg"], lambda: f"same data in {op['cfg']} answers differently from Memory:\n{texts[op['q']]}\n memory-only={[x for x in base if x not in got][:6]}\n {op['cfg']}-only={[x for x in got if x not in base][:6]}\n sizes {len(base)} vs {len(got)}", cfg=op["cfg"], has_path="path" in repr(cfg["queries"][op["q"]]))
             ctx.log("config", f"{op['cfg']} {len(base)}")
+        elif k == "initns":
+            # the same query text with a prefix that is *not* declared in the text, supplied through initNs, for two different
+            # namespaces in turn: each time it must mean the fully spelled query of that namespace (no stale translation)
+            q = cfg["queries"][op["q"]]
+            ctx.probe("prefix-from-initNs")
+            short = text_of(q, prefix=True, undeclared=True)
+            for which in op["order"]:
+                ns = [EX, EX2][which]
+                try:
+                    want = _rows(graphs["memory"].query(text_of(q, ns=ns)))
+                    got = _rows(graphs["memory"].query(short, initNs={"ex": ns}))
+                except Exception as e:
+                    ctx.log("initns-raised", type(e).__name__)
+                    break
+                if want:
+                    ctx.probe("nonempty-comparison")
+                ctx.check(got == want, "C15.prefix-from-initNs", lambda: f"query with prefix ex: supplied as initNs={{'ex': {ns}}} differs from the fully spelled query:\n{short}\n prefixed-only={[x for x in got if x not in want][:5]}\n full-only={[x for x in want if x not in got][:5]}")
         elif k == "initb":
             q = cfg["queries"][op["q"]]
             ctx.probe("rewrite-values-vs-initbindings")
